@@ -5,6 +5,7 @@
 #ifdef HAVE_T_struct_QArrayData
 #define C05_ID_EMPTY 38   /* row of the empty name (static_assert in h.cpp) */
 void F_vp_c05_make_mech(uint32_t id, char *out);
+// MODEL: _ZN5QXmpp7Private13SaslMechanism10fromStringE11QStringView
 struct L_1f71b25bad _ZN5QXmpp7Private13SaslMechanism10fromStringE11QStringView(uint64_t n, char *p) {
   uint64_t buf[2] = { 0, 0 }; uint32_t id = C05_ID_EMPTY; uint8_t ok = (n == 0);
 #ifdef __CPROVER__
